@@ -42,10 +42,19 @@ fn main() {
             std::process::exit(2);
         }
     }
-    let _ = replay;
     let code = match args[1].as_str() {
         "selfcheck" => 0,
+        "replay" => match &replay {
+            Some(p) => cvx::replay::run(p),
+            None => {
+                eprintln!("--replay <file> required");
+                2
+            }
+        },
         p @ ("C01" | "C02" | "C03" | "C04") => cvx::checks::static_checks::run(p, tier),
+        "C07" => cvx::checks::static_checks::run_c07(tier),
+        "C18" => cvx::checks::c18::run(tier),
+        "C17" => cvx::checks::c17::run(tier),
         other => {
             eprintln!("unknown check {}", other);
             2
